@@ -400,32 +400,56 @@ func semMain(casesPath, outPath string, workers int) {
 	ctx := context.Background()
 	results := make([]*result, len(cases))
 	var next int64 = -1
+	var firstTimeouts int64
 	var wg sync.WaitGroup
 	for w := 0; w < workers; w++ {
 		wg.Add(1)
 		go func() {
 			defer wg.Done()
 			for {
+				// mass time-outs (a hang in the code under test, or a frozen machine): stop early instead of
+				// waiting 10 s for every remaining case; what was executed is still recorded and judged
+				if atomic.LoadInt64(&firstTimeouts) >= 40 {
+					return
+				}
 				i := int(atomic.AddInt64(&next, 1))
 				if i >= len(cases) {
 					return
 				}
 				results[i], _ = runCase(ctx, sys, &cases[i], 10*time.Second)
+				if results[i].Timeout == 1 {
+					atomic.AddInt64(&firstTimeouts, 1)
+				}
 			}
 		}()
 	}
 	wg.Wait()
+	executed := results[:0:0]
+	executedCases := cases[:0:0]
+	for i, r := range results {
+		if r != nil {
+			executed = append(executed, r)
+			executedCases = append(executedCases, cases[i])
+		}
+	}
+	skipped := len(results) - len(executed)
+	results, cases = executed, executedCases
 	// a time-out / Run error under load is re-run alone with a long deadline; both attempts are recorded
 	// (the first one marked superseded) so that the monitor sees every real execution
 	retried, timeouts := 0, 0
 	var all []*result
+	retryStart := time.Now()
 	for i, r := range results {
 		r.Attempt = 1
 		all = append(all, r)
 		if r.Timeout == 1 || r.RunErr != "" {
+			if time.Since(retryStart) > 150*time.Second {
+				timeouts++ // retry budget exhausted: stays a first attempt without a second one
+				continue
+			}
 			retried++
 			r.Superseded = 1
-			second, _ := runCase(ctx, sys, &cases[i], 20*time.Second)
+			second, _ := runCase(ctx, sys, &cases[i], 30*time.Second)
 			second.Attempt = 2
 			second.First = "timeout"
 			if r.RunErr != "" {
@@ -452,7 +476,7 @@ func semMain(casesPath, outPath string, workers int) {
 		fmt.Fprintln(os.Stderr, err)
 		os.Exit(2)
 	}
-	fmt.Printf("{\"cases\":%d,\"retried\":%d,\"timeouts\":%d,\"mean_us\":%d}\n", len(cases), retried, timeouts, us/int64(max(len(cases), 1)))
+	fmt.Printf("{\"cases\":%d,\"retried\":%d,\"timeouts\":%d,\"skipped\":%d,\"mean_us\":%d}\n", len(cases), retried, timeouts, skipped, us/int64(max(len(cases), 1)))
 }
 
 // ---------------------------------------------------------------- demand trace
